@@ -33,6 +33,7 @@ Code(c) == IF c = "\n" THEN 10 ELSE IF c = "\t" THEN 9 ELSE IF c = "<u233>" THEN
            ELSE IF c = "<u133>" THEN 133 ELSE IF c = "<u0>" THEN 0 ELSE IF c = "<u27>" THEN 27
            ELSE IF c = "<u7>" THEN 7 ELSE IF c = "<u8>" THEN 8 ELSE IF c = "<u11>" THEN 11 ELSE IF c = "<u12>" THEN 12 ELSE IF c = "\r" THEN 13
            ELSE IF c = "<u160>" THEN 160 ELSE IF c = "<u8232>" THEN 8232 ELSE IF c = "<u8233>" THEN 8233
+           ELSE IF c = "<u288>" THEN 288 ELSE IF c = "<u19977>" THEN 19977
            ELSE 31 + AsciiIdx(c, 1)            \* printable ASCII
 
 \* contexts: [name, key (must stay on one line), flow (flow indicators end a plain scalar), n (indentation of the parent block)]
